@@ -28,7 +28,7 @@ func main() {
 		tx := transactional.NewStorage(base, memory.NewStorage())
 		results := u.Run(tx, c.L("ops"))
 		pre := u.Snapshot(base)
-		var commit lib.Out = lib.Ok()
+		var commit lib.Out = lib.Sym("ok")
 		if err := tx.Commit(); err != nil {
 			commit = b10store.ErrClass(err)
 		}
